@@ -109,6 +109,18 @@ func check(spec *ukit.Spec, res *ux.Result, only *replay) {
 					fail(fmt.Sprintf("Unserialize returns a value that violates the declared constraints (%s)", kindOf(spec)),
 						fmt.Sprintf("Unserialize(%s) = %s", ukit.Show(raw), ukit.Show(got)), "Unserialize", i, raw)
 				}
+				if err == nil {
+					// whichever way an open question is settled (a length counted in bytes or in characters), the three entry
+					// points must settle it the same way: a value Unserialize lets in meets the constraints as Validate and
+					// Serialize read them
+					if verr := sch.Validate(got); verr != nil {
+						fail(fmt.Sprintf("Unserialize and Validate read the declared constraints differently (%s)", kindOf(spec)),
+							fmt.Sprintf("Unserialize(%s) = %s, but Validate of that value -> %v", ukit.Show(raw), ukit.Show(got), verr), "Unserialize", i, raw)
+					} else if _, serr := sch.Serialize(got); serr != nil {
+						fail(fmt.Sprintf("Unserialize and Serialize read the declared constraints differently (%s)", kindOf(spec)),
+							fmt.Sprintf("Unserialize(%s) = %s, but Serialize of that value -> %v", ukit.Show(raw), ukit.Show(got), serr), "Unserialize", i, raw)
+					}
+				}
 			})
 			continue
 		}
